@@ -139,3 +139,23 @@ def in_fresh_child(fn: Callable[[], Any], timeout: float = 120.0) -> Any:
         return None
     kind, val = pickle.loads(chunks[0])
     return val if kind == "ok" else None
+
+
+def in_fresh_interpreter(module: str, function: str, args: list, timeout: float = 600.0) -> Any:
+    """runs `module.function(*args)` in a NEW Python interpreter (same sys.path, same environment) and returns its
+    JSON result: no cache, memo or module-level state of this process - which has run provers, replays and other
+    harnesses on the same library - exists there.  None if the child failed (stderr goes to a NOTE by the caller)."""
+    import json
+    import os
+    import subprocess
+    import sys
+    code = ("import json, sys\nimport importlib\nm = importlib.import_module(sys.argv[1])\n"
+            "print('\\n@@RESULT@@' + json.dumps(getattr(m, sys.argv[2])(*json.loads(sys.argv[3])), default=repr))")
+    env = dict(os.environ)
+    env["PYTHONPATH"] = os.pathsep.join(p for p in sys.path if p)
+    r = subprocess.run([sys.executable, "-W", "ignore", "-c", code, module, function, json.dumps(args)],
+                       capture_output=True, text=True, timeout=timeout, env=env)
+    for line in r.stdout.splitlines():
+        if line.startswith("@@RESULT@@"):
+            return json.loads(line[len("@@RESULT@@"):])
+    return None
